@@ -45,6 +45,24 @@ type SBuilder struct {
 	Rand    *rand.Rand
 	RandN   int
 	randMem map[string][]uint64
+	// stack holds the struct types being built: a message type that (through fields the
+	// schema excludes) refers to itself is not expanded again, its pointer/collection stays nil
+	stack []reflect.Type
+}
+
+func (b *SBuilder) onStack(t reflect.Type) bool {
+	for t.Kind() == reflect.Ptr || t.Kind() == reflect.Slice || t.Kind() == reflect.Map {
+		t = t.Elem()
+	}
+	if t.Kind() != reflect.Struct {
+		return false
+	}
+	for _, s := range b.stack {
+		if s == t {
+			return true
+		}
+	}
+	return false
 }
 
 // randBits returns the per-position random words (stable for one builder configuration).
@@ -158,6 +176,10 @@ var mapKeySets = [][]string{nil, {}, {"k1"}, {"k1", "k2"}, {"k2"}, {"k1", "k2", 
 // Build fills v (settable) with a value chosen by the chooser.
 func (b *SBuilder) Build(v reflect.Value, path string) {
 	t := v.Type()
+	if (t.Kind() == reflect.Ptr || t.Kind() == reflect.Slice || t.Kind() == reflect.Map) && b.onStack(t) {
+		v.Set(reflect.Zero(t))
+		return
+	}
 	switch t.Kind() {
 	case reflect.Ptr:
 		if b.pick(path+"/ptr", 2, defIdx(b.Base, 1, 1)) == 0 {
@@ -184,6 +206,8 @@ func (b *SBuilder) Build(v reflect.Value, path string) {
 			v.Set(reflect.ValueOf(dom[b.pick(path, len(dom), defIdx(b.Base, 1, 1))]))
 			return
 		}
+		b.stack = append(b.stack, t)
+		defer func() { b.stack = b.stack[:len(b.stack)-1] }()
 		for _, f := range structFields(t) {
 			fv := v.FieldByIndex(f.Index)
 			if fv.Kind() == reflect.Interface {
@@ -412,6 +436,11 @@ func (f sform) render(sb *strings.Builder, v reflect.Value, goPath string, embed
 		w := v.Elem().Elem() // wrapper struct
 		payload := w.Field(0)
 		name := w.Type().Field(0).Name
+		if f.excl != nil && f.excl(strings.TrimPrefix(goPath+"."+name, ".")) {
+			// a branch the schema does not describe: compared like an unset oneof
+			sb.WriteString("unset")
+			return
+		}
 		if f.normal {
 			zero := false
 			switch payload.Kind() {
